@@ -213,6 +213,10 @@ def _unpack_stack(scope, only_errors=True):
         # nondeterministic bug in abc's __eq__ see #189 for details
         if id(child) in [id(b) for b in branches]:
             break  # if child already covered by branches, stop the linear descent
+        if only_errors and CUR_ERROR not in child.maps[0]:
+            # the last child completed normally: neither it nor whatever it
+            # recovered from on its way had a part in the error
+            break
 
         scope = child.maps[0]
     else:  # if break executed above, cur scope was already added
